@@ -56,6 +56,8 @@ func runC07(c *Ctx, r *Report) {
 	// of the global number, field triples) and no unit reported written that was skipped
 	c05Headers(c, r)
 	c05NoSilentSkip(c, r)
+	encodeLeavesMessages(c, r, "C07-R6-encode-readonly")
+	c03MessageFlows(c, r) // every decoded record starts from a fresh all-invalid message: no value of an earlier record survives into what is re-encoded
 	roots, missing := c.rootFuncs(encodeRoots)
 	for _, m := range missing {
 		r.fail("C07-roots", m, "", "not found")
@@ -68,6 +70,8 @@ func runC07(c *Ctx, r *Report) {
 		}
 	}
 	r.set("encode_reachable_functions", len(scope))
+	// no nil dereference on the encode path (same origin-based analysis as C01-R2-nil-*, over Encode's scope)
+	nilSafety(c, r, "C07-R2-nil", "encode", 100, scope, roots, ri.module())
 
 	// facts from the tables
 	p, perr := c.profile()
@@ -1005,4 +1009,98 @@ func isDefPtrCompare(cond ssa.Value) bool {
 	}
 	n, ok := pt.Elem().(*types.Named)
 	return ok && n.Obj().Name() == "encodeMesgDef" && isNilConst(bo.Y)
+}
+
+// encodeLeavesMessages: nothing on Encode's call tree (VTA call graph, interface calls resolved)
+// stores into a member of a message struct that the function did not allocate itself. Encode reads
+// the caller's messages through reflection; a method that writes its receiver (component
+// expansion, a normalising setter) reached from Encode changes the caller's File, so a second Encode
+// of the same File writes different bytes and the File no longer equals what Decode returned.
+func encodeLeavesMessages(c *Ctx, r *Report, rule string) {
+	enc := c.ssaFn(c.fn(c.fit, "Encode"))
+	p, _ := c.profile()
+	if enc == nil || p == nil {
+		r.fail(rule, "Encode", "", "Encode or the profile tables not found")
+		return
+	}
+	isMsg := map[*types.Named]bool{}
+	for _, t := range p.MsgTypes {
+		isMsg[t] = true
+	}
+	nFn, nStores := 0, 0
+	// interface calls on values that come out of reflection are invisible to the type-flow call graph:
+	// every method of a message type that can stand behind such a call is added by hand (class
+	// hierarchy: *XMsg implements the interface called)
+	roots := []*ssa.Function{enc}
+	seenRoot := map[*ssa.Function]bool{enc: true}
+	for changed := true; changed; {
+		changed = false
+		for _, fn := range c.reach(roots).module() {
+			if fnPkgPath(fn) != modPath {
+				continue
+			}
+			for _, ci := range allCalls(fn) {
+				cc := ci.Common()
+				if !cc.IsInvoke() {
+					continue
+				}
+				iface, ok := cc.Value.Type().Underlying().(*types.Interface)
+				if !ok {
+					continue
+				}
+				for t := range isMsg {
+					pt := types.NewPointer(t)
+					if !types.Implements(pt, iface) {
+						continue
+					}
+					if m := c.prog.LookupMethod(pt, cc.Method.Pkg(), cc.Method.Name()); m != nil && !seenRoot[m] {
+						seenRoot[m] = true
+						roots = append(roots, m)
+						changed = true
+					}
+				}
+			}
+		}
+	}
+	for _, fn := range c.reach(roots).module() {
+		if fnPkgPath(fn) != modPath {
+			continue
+		}
+		nFn++
+		for _, b := range fn.Blocks {
+			for _, ins := range b.Instrs {
+				st, ok := ins.(*ssa.Store)
+				if !ok {
+					continue
+				}
+				// the member written: walk FieldAddr / IndexAddr up to the struct
+				var base ssa.Value = st.Addr
+				var owner *types.Named
+				for {
+					switch x := base.(type) {
+					case *ssa.FieldAddr:
+						if o, _ := ownerOf(x); o != nil && isMsg[o] && owner == nil {
+							owner = o
+						}
+						base = x.X
+						continue
+					case *ssa.IndexAddr:
+						base = x.X
+						continue
+					}
+					break
+				}
+				if owner == nil {
+					continue
+				}
+				nStores++
+				if al, ok := base.(*ssa.Alloc); ok && al.Parent() == fn {
+					continue // a message this function is building
+				}
+				r.fail(rule, fmt.Sprintf("%s/%s", fn.Name(), owner.Obj().Name()), c.pos(st.Pos()), fmt.Sprintf("%s, which Encode can reach, writes a member of a %s it was handed: Encode changes the caller's File, so encoding it again writes different bytes (and the File no longer equals what Decode returned)", fn.Name(), owner.Obj().Name()))
+			}
+		}
+	}
+	r.ok(rule, "scan", "", fmt.Sprintf("%d functions on Encode's call tree, %d stores into message members, all into messages the storing function allocated itself", nFn, nStores))
+	r.need("functions on Encode's call tree", nFn, 10)
 }
